@@ -1,4 +1,4 @@
-// mark-and-sweep, scans only num_registers per frame
+// mark-and-sweep, scans only num_registers per frame; roots: frames, globals, upvalues, live manual-heap buffers
 // TODO: incremental/generational GC would be nice for larger heaps
 
 use super::{GcRef, VM};
@@ -83,6 +83,15 @@ impl VM {
         }
 
         for value in &self.globals_by_index {
+            if let Some(gc_ref) = value.as_ptr() {
+                self.heap.mark(GcRef::new(gc_ref));
+            }
+        }
+
+        // Manual memory is not collected, but what a program stored in it must stay alive: a
+        // string (array, closure, ...) whose only reference sits in an alloc()ed buffer is still
+        // reachable through load().
+        for value in self.manual_heap.live_values() {
             if let Some(gc_ref) = value.as_ptr() {
                 self.heap.mark(GcRef::new(gc_ref));
             }
